@@ -4,7 +4,7 @@
 (* (= one complete run in one mode); the silent lane is the reference.  The   *)
 (* design-level statement is MC_Session!ModeNonInterference (two copies of    *)
 (* the session machine differing only in the mode stay equal).                *)
-EXTENDS TraceBase, Summary
+EXTENDS TraceBase, Summary, Report
 VARIABLES l, ref
 vars == <<l, ref>>
 Ev == TheTrace[l]
@@ -31,6 +31,8 @@ LaneOK(e, r) ==
     /\ (Growth /\ Verbose(e.mode) /\ e.world = 0) =>
           /\ Len(e.pIters) = Len(e.texts) /\ Len(e.pN) = Len(e.texts) /\ Len(e.pNnf) = Len(e.texts)
           /\ \A i \in 1 .. Len(e.texts) : e.pIters[i] = i - 1 /\ e.pN[i] = e.facts[2 * i - 1] /\ e.pNnf[i] = e.facts[2 * i]
+    \* ... and every field of both report lines is the function of the checkpoint that Report.tla states
+    /\ (Growth /\ Verbose(e.mode) /\ e.world = 0) => ReportOK(e)
 
 Lane ==
     /\ l <= TraceLen /\ Ev.e = "Lane"
